@@ -234,5 +234,71 @@ func TestVerifBounded(t *testing.T) {
 			}
 		}
 	}
-	fmt.Printf("BOUNDED-COVERAGE: fec k-of-n: %d configurations, %d fresh-decoder runs (all subsets x orders), %d long-lived-decoder runs (3 consecutive groups, all subset combinations)\n", len(cfgs), runs, runs2)
+	// phase 3: the sender skips the parity of a group (property: "parity being skipped by the sender
+	// never harms delivery"), at the last group before the wrap value and two groups earlier; the
+	// group that follows must still recover any single lost data packet from any one parity packet
+	runs3 := 0
+	for _, c := range cfgs {
+		d, p := c[0], c[1]
+		n := d + p
+		paws := 0xffffffff / uint32(n) * uint32(n)
+		for _, start := range []uint32{paws - uint32(n), paws - 3*uint32(n), 0} {
+			for lost := 0; lost < d; lost++ {
+				for par := 0; par < p; par++ {
+					runs3++
+					enc := newFECEncoder(d, p, 0)
+					dec := newFECDecoder(d, p)
+					enc.next = start
+					mk := func(g, i int) []byte {
+						b := make([]byte, fecHeaderSizePlus2+5+(g*7+i*11)%23)
+						for k := fecHeaderSizePlus2; k < len(b); k++ {
+							b[k] = byte(k*3 + g*17 + i)
+						}
+						return b
+					}
+					for i := 0; i < d; i++ { // group A: rto 0 => parity skipped
+						b := mk(0, i)
+						if ps := enc.encode(b, 0); len(ps) != 0 {
+							t.Fatalf("BOUNDED-VIOLATION: (%d,%d): parity expected to be skipped for rto 0", d, p)
+						}
+						if r := dec.decode(fecPacket(b)); len(r) != 0 {
+							t.Fatalf("BOUNDED-VIOLATION: (%d,%d) start %d: decoder emitted %d packets for a completely received group", d, p, start, len(r))
+						}
+					}
+					var data, parity [][]byte
+					for i := 0; i < d; i++ { // group B: parity generated
+						b := mk(1, i)
+						ps := enc.encode(b, 1<<30)
+						data = append(data, append([]byte(nil), b...))
+						for _, q := range ps {
+							parity = append(parity, append([]byte(nil), q...))
+						}
+					}
+					if len(parity) != p {
+						t.Fatalf("BOUNDED-VIOLATION: (%d,%d) start %d: %d parity shards after a skipped group, want %d", d, p, start, len(parity), p)
+					}
+					var rec [][]byte
+					for i := 0; i < d; i++ {
+						if i != lost {
+							rec = append(rec, dec.decode(fecPacket(data[i]))...)
+						}
+					}
+					rec = append(rec, dec.decode(fecPacket(parity[par]))...)
+					want := data[lost][fecHeaderSize:]
+					found := false
+					for _, r := range rec {
+						if len(r) >= 2 {
+							if sz := int(binary.LittleEndian.Uint16(r)); sz == len(want) && sz <= len(r) && bytes.Equal(r[:sz], want) {
+								found = true
+							}
+						}
+					}
+					if !found {
+						t.Fatalf("BOUNDED-VIOLATION: (%d,%d) group after a skipped-parity group starting at id %d (wrap value %d): lost data packet %d was not reconstructed from the other data packets and parity %d", d, p, start, paws, lost, par)
+					}
+				}
+			}
+		}
+	}
+	fmt.Printf("BOUNDED-COVERAGE: fec k-of-n: %d configurations, %d fresh-decoder runs (all subsets x orders), %d long-lived-decoder runs (3 consecutive groups, all subset combinations), %d skipped-parity runs (before the wrap value and elsewhere)\n", len(cfgs), runs, runs2, runs3)
 }
